@@ -269,6 +269,32 @@ pub fn check_quiescent_accounting(sut: &Sut, context: &str, counts: &mut Counts,
     ok
 }
 
+/// Statistics identities at a quiescent point of a concurrent history (C16): counters are bumped from many threads at once.
+pub fn check_quiescent_stats(sut: &Sut, logs: &[OpRec], counts: &mut Counts, findings: &mut Vec<Finding>, case: &J) {
+    let summary = sut.cache.stats_summary();
+    let get = |t: StatsType| summary.get(&t).unwrap_or(0);
+    let lookups = logs.iter().filter(|r| matches!(r.outcome, Outcome::Read { .. })).count() as u64;
+    let hits_seen = logs.iter().filter(|r| matches!(r.outcome, Outcome::Read { got: Some(_), .. })).count() as u64;
+    let refused = logs.iter().filter(|r| matches!(&r.outcome, Outcome::Write { status: Some(Waited::Ready(CommandStatus::Rejected(
+        RejectionReason::EnoughSpaceIsNotAvailableAndKeyFailedToEvictOthers | RejectionReason::KeyWeightIsGreaterThanCacheWeight))), .. })).count() as u64;
+    let snapshot = sut.snapshot();
+    let mut fail = |signature: &str, detail: String| findings.push(Finding { props: vec!["C16"], signature: format!("C16/{}/concurrent", signature), detail, witness: case.clone(), inconclusive: false });
+    let (hits, misses) = (get(StatsType::CacheHits), get(StatsType::CacheMisses));
+    if hits + misses != lookups { fail("hits-plus-misses-differs-from-lookups", format!("hits {} + misses {} != {} lookups issued by the clients", hits, misses, lookups)); }
+    if hits != hits_seen { fail("hits-differ-from-successful-reads", format!("CacheHits {} but {} reads returned a value", hits, hits_seen)); }
+    if get(StatsType::KeysAdded).wrapping_sub(get(StatsType::KeysDeleted)) != snapshot.stored.len() as u64 {
+        fail("keys-added-minus-deleted-differs-from-held", format!("KeysAdded {} - KeysDeleted {} != {} keys held", get(StatsType::KeysAdded), get(StatsType::KeysDeleted), snapshot.stored.len()));
+    }
+    if get(StatsType::WeightAdded).wrapping_sub(get(StatsType::WeightRemoved)) != snapshot.weight_used as u64 {
+        fail("weight-added-minus-removed-differs-from-used", format!("WeightAdded {} - WeightRemoved {} != weight used {}", get(StatsType::WeightAdded), get(StatsType::WeightRemoved), snapshot.weight_used));
+    }
+    if get(StatsType::KeysRejected) != refused { fail("keys-rejected-differs", format!("KeysRejected {} != {} puts refused by admission", get(StatsType::KeysRejected), refused)); }
+    let expected_ratio = if lookups == 0 { 0.0 } else { hits as f64 / (hits + misses).max(1) as f64 };
+    if (summary.hit_ratio - expected_ratio).abs() > 1e-12 { fail("hit-ratio-wrong", format!("hit ratio {} but hits {} / lookups {}", summary.hit_ratio, hits, hits + misses)); }
+    counts.inc("concurrent_stats_checks");
+    counts.add("concurrent_lookups_counted", lookups);
+}
+
 // ------------------------------------------------------------------------------------------------ scenario plumbing
 
 pub struct CaseOut {
@@ -489,6 +515,7 @@ fn run_mixed(focus: &'static str, seed: u64, index: u64, clean: bool) -> CaseOut
     }
     if quiescent && sut.background_exits().is_empty() {
         check_quiescent_accounting(&sut, dirty, &mut counts, &mut findings, case.clone());
+        check_quiescent_stats(&sut, &logs, &mut counts, &mut findings, &case);
         // corollary through the public API: delete everything, then nothing may stay charged
         let mut client = Client::new(99);
         for key in 1..=cfg.keys { client.write(&sut.cache, WriteOp::Delete { key }); }
@@ -758,6 +785,178 @@ fn run_update_sweep(focus: &'static str, seed: u64, index: u64) -> CaseOut {
     CaseOut { findings, counts, signature, nontrivial: true, sample }
 }
 
+// ------------------------------------------------------------------------------------------------ scenario: a client held in the middle of its call (C04 / C07 / C08 / C05 directed)
+
+const CLIENT_SITES: [Site; 6] = [Site::SendAfter, Site::SendBefore, Site::DeleteAfterMark, Site::PutAfterPresenceCheck, Site::UpsertAfterStoreUpdate, Site::UpsertBeforeSend];
+
+/// Thread T1 is held at a lock-free site in the middle of operation A on key k while another client completes
+/// (awaits) operations on the same key; after release and quiescence the key must be in a coherent state:
+/// accounting consistent, "reads as absent" implies "can be put", a readable key rejects a put, everything can be
+/// deleted and nothing stays charged. Every fourth case instead pipelines explicit-weight upserts behind a held worker.
+fn run_held_client(focus: &'static str, seed: u64, index: u64) -> CaseOut {
+    let mut rng = rt::rng_for(seed, index, 0x4E1D);
+    let mut counts = Counts::default();
+    let mut findings = Vec::new();
+    let sutcfg = SutCfg { counters: 100, capacity: 16, max_weight: 100_000, shards: 2, cmd_buf: *rng.pick(&[1usize, 4, 64]), pool: 1, buf: 2, tick: Duration::from_millis(1),
+        weight_mode: if rng.chance(1, 2) { WeightMode::Default } else { WeightMode::Custom }, hash_mode: HashMode::Default, start_ns: rt::START_NS };
+    let pipelined = index % 4 == 3;
+    let mut sutcfg = sutcfg;
+    if pipelined { sutcfg.cmd_buf = 64; } // the burst must fit behind the held worker
+    let site = CLIENT_SITES[((index / 4) % CLIENT_SITES.len() as u64) as usize];
+    let initial = (index / 24) % 3; // 0 absent, 1 live, 2 live with a TTL
+    // choose an operation that actually passes the armed site
+    let initial = match site { Site::PutAfterPresenceCheck => 0, Site::UpsertBeforeSend => 1 + initial % 2, _ => initial };
+    let op_a_kind = match site {
+        Site::DeleteAfterMark => 0,
+        Site::PutAfterPresenceCheck => 1 + rng.below(2),
+        Site::UpsertAfterStoreUpdate => 3 + rng.below(3),
+        Site::UpsertBeforeSend => *rng.pick(&[3u64, 5]),
+        _ => if initial == 0 { *rng.pick(&[0u64, 1, 2, 3, 4]) } else { *rng.pick(&[0u64, 3, 5, 4]) },
+    };
+    let b_kind = rng.below(6);
+    let case = J::obj().with("engine", J::s("conc")).with("scenario", J::s("held-client")).with("focus", J::s(focus)).with("seed", J::Int(seed as i128)).with("index", J::Int(index as i128))
+        .with("pipelined_upserts", J::Bool(pipelined)).with("held_at", J::s(format!("{:?}", site))).with("initial_state", J::Int(initial as i128)).with("config", sutcfg.to_json());
+    prep(1, 0, 0, 0, false);
+    let panic_mark = rt::panic_count();
+    let sut = Sut::new(sutcfg);
+    let marks = sut.marks;
+    let key = rng.range(1, 3);
+    let mut main_client = Client::new(1);
+    let ttl = Duration::from_secs(3600);
+    if initial > 0 || pipelined {
+        let value = main_client.token(key);
+        let op = if initial == 2 { WriteOp::PutWTtl { key, value, weight: 50, ttl } } else { WriteOp::PutW { key, value, weight: 50 } };
+        main_client.write(&sut.cache, op);
+        main_client.settle_all(&marks);
+    }
+    let mut window_entered = false;
+    let mut all_logs: Vec<OpRec> = Vec::new();
+    let mut expected_final_weight: Option<i64> = None;
+    if pipelined {
+        sched().arm(Site::WorkerDequeued, 0);
+        let mut dummy = Client::new(8);
+        dummy.write(&sut.cache, WriteOp::Delete { key: 77 });
+        if sched().wait_holding(Site::WorkerDequeued, Duration::from_secs(5)) {
+            window_entered = true;
+            let n = rng.range(2, 4);
+            let mut last = 50;
+            for i in 0..n {
+                // the last one asks for the weight the key had before the burst: still a change with respect to the queued one before it
+                let weight = if i == n - 1 { 50 } else { 50 + 10 * (i as i64 + 1) };
+                let value = main_client.token(key);
+                main_client.write(&sut.cache, WriteOp::Upsert { key, value: if rng.chance(1, 2) { Some(value) } else { None }, weight: Some(weight), ttl: None, remove_ttl: false });
+                last = weight;
+            }
+            expected_final_weight = Some(last);
+        }
+        sched().release(Site::WorkerDequeued);
+        main_client.settle_all(&marks);
+        dummy.settle_all(&marks);
+        all_logs.extend(dummy.log);
+    } else {
+        let mut held = Client::new(2);
+        let value_a = held.token(key);
+        let op_a = match op_a_kind {
+            0 => WriteOp::Delete { key },
+            1 => WriteOp::PutW { key, value: value_a, weight: 40 },
+            2 => WriteOp::PutWTtl { key, value: value_a, weight: 64, ttl },
+            3 => WriteOp::Upsert { key, value: Some(value_a), weight: Some(45), ttl: None, remove_ttl: false },
+            4 => WriteOp::Upsert { key, value: Some(value_a), weight: None, ttl: Some(ttl), remove_ttl: false },
+            _ => WriteOp::Upsert { key, value: Some(value_a), weight: Some(70), ttl: None, remove_ttl: initial == 2 },
+        };
+        sched().arm(site, rt::tid());
+        let cache = sut.cache.clone();
+        let handle = thread::spawn(move || { held.write(&cache, op_a); held.settle_all(&marks); held });
+        if sched().wait_holding(site, Duration::from_millis(250)) {
+            window_entered = true;
+            // the other client completes whole operations on the same key while T1 is parked mid-call
+            let steps: Vec<u64> = match b_kind { 0 => vec![0], 1 => vec![1], 2 => vec![2], 3 => vec![1, 0], 4 => vec![0, 1], _ => vec![0, 1, 2] };
+            for step in steps {
+                let value = main_client.token(key);
+                let op = match step {
+                    0 => WriteOp::Delete { key },
+                    1 => if rng.chance(1, 2) { WriteOp::PutW { key, value, weight: 30 } } else { WriteOp::PutWTtl { key, value, weight: 54, ttl } },
+                    _ => WriteOp::Upsert { key, value: Some(value), weight: Some(35), ttl: None, remove_ttl: false },
+                };
+                main_client.write(&sut.cache, op);
+                // with a one-slot queue and T1 parked before its send this still completes: the worker is free
+                main_client.settle_all(&marks);
+            }
+        }
+        sched().release(site);
+        sched().release_all();
+        if let Ok(held) = handle.join() { all_logs.extend(held.log); }
+    }
+    if window_entered { counts.inc("held_client_windows_entered"); } else { counts.inc("window_not_entered"); }
+    all_logs.extend(main_client.log.iter().cloned());
+    all_logs.sort_by_key(|r| r.call);
+    let witness = |recs: &[&OpRec]| witness_of(&case, recs);
+    let race_logs = all_logs.clone();
+    let all: Vec<&OpRec> = race_logs.iter().collect();
+    check_ack_outcomes(&all_logs, false, &mut counts, &mut findings, &witness, panic_mark);
+    match sut.quiesce().and_then(|_| sut.settle_fresh()) {
+        Err(waited) => push_stuck(&mut findings, "quiescence after a held-client race", waited, &case),
+        Ok(()) => {
+            let context = if pipelined { "pipelined-upserts".to_string() } else { format!("held-client/site={:?}", site) };
+            check_quiescent_accounting(&sut, &context, &mut counts, &mut findings, witness(&all));
+            if let Some(expected) = expected_final_weight {
+                let snapshot = sut.snapshot();
+                let charged = snapshot.stored.iter().find(|e| e.0 == key).and_then(|e| sut.cache.verif_charged_weight(e.1));
+                counts.inc("pipelined_upsert_bursts_checked");
+                if charged != Some(expected) {
+                    findings.push(Finding { props: vec!["C08", "C05"], signature: "C08/charged-weight-differs-after-pipelined-upserts".into(),
+                        detail: format!("a burst of un-awaited explicit-weight upserts of key {} ended with weight {} (all acknowledged Accepted) but the key is charged {:?}", key, expected, charged),
+                        witness: witness(&all), inconclusive: false });
+                }
+            }
+            // probe: coherent final state
+            let mut probe = Client::new(5);
+            let seen = probe.read(&sut.cache, key, 0);
+            let fresh = probe.token(key);
+            probe.write(&sut.cache, WriteOp::PutW { key, value: fresh, weight: 7 });
+            probe.settle_all(&marks);
+            let put_status = match &probe.log.last().unwrap().outcome { Outcome::Write { status: Some(Waited::Ready(s)), .. } => Some(*s), _ => None };
+            let exists = put_status == Some(CommandStatus::Rejected(RejectionReason::KeyAlreadyExists));
+            counts.inc("coherence_probes");
+            if seen.is_none() && exists {
+                findings.push(Finding { props: vec!["C07", "C04", "C05"], signature: format!("C07/key-already-exists-for-unreadable-key/at-quiescence/{}", context),
+                    detail: format!("at quiescence key {} reads as absent, yet a put is rejected with KeyAlreadyExists (the key can neither be read nor put)", key), witness: witness(&all), inconclusive: false });
+            }
+            if seen.is_some() && !exists {
+                findings.push(Finding { props: vec!["C07"], signature: format!("C07/put-on-readable-key-not-rejected/at-quiescence/{}", context),
+                    detail: format!("key {} is readable but a put resolved to {:?}", key, put_status.map(|s| status_name(&s))), witness: witness(&all), inconclusive: false });
+            }
+            if put_status == Some(CommandStatus::Accepted) && probe.read(&sut.cache, key, 1) != Some(fresh) {
+                findings.push(Finding { props: vec!["C03", "C07"], signature: format!("C03/accepted-put-unreadable/at-quiescence/{}", context),
+                    detail: format!("a put of key {} was accepted at quiescence but the value is not readable", key), witness: witness(&all), inconclusive: false });
+            }
+            let readable_now = probe.read(&sut.cache, key, 2).is_some();
+            probe.write(&sut.cache, WriteOp::Delete { key });
+            probe.settle_all(&marks);
+            let delete_status = match &probe.log.last().unwrap().outcome { Outcome::Write { status: Some(Waited::Ready(s)), .. } => Some(*s), _ => None };
+            if readable_now && delete_status != Some(CommandStatus::Accepted) {
+                findings.push(Finding { props: vec!["C04"], signature: format!("C04/delete-of-held-key/at-quiescence/{}", context),
+                    detail: format!("delete of readable key {} resolved to {:?}", key, delete_status.map(|s| status_name(&s))), witness: witness(&all), inconclusive: false });
+            }
+            if sut.quiesce().and_then(|_| sut.settle_fresh()).is_ok() {
+                let total = sut.cache.total_weight_used();
+                let held_entries = sut.snapshot().stored.len();
+                if total != 0 || held_entries != 0 {
+                    findings.push(Finding { props: vec!["C05", "C04"], signature: format!("C05/weight-left-after-deleting-every-key/{}", context),
+                        detail: format!("after deleting the key (acknowledged) total_weight_used() is {} and {} entries are held", total, held_entries), witness: witness(&all), inconclusive: false });
+                }
+                counts.inc("delete_everything_checks");
+            }
+        }
+    }
+    weight_bound_findings(&mut findings, &case, "held-client");
+    let signature = fnv_step(fnv_step(fnv_step(0x4E1D, index % 72), op_a_kind << 8 | b_kind), key << 4 | window_entered as u64);
+    let sample = case.clone().with("operations", J::Arr(all_logs.iter().take(10).map(|r| r.to_json()).collect()));
+    if let Err(waited) = sut.finish() { if findings.is_empty() { push_stuck(&mut findings, "shutdown after a held-client race", waited, &case); } }
+    counts.inc("cases");
+    CaseOut { findings, counts, signature, nontrivial: window_entered, sample }
+}
+
 // ------------------------------------------------------------------------------------------------ dispatch
 
 pub fn run(args: &Args) -> Shard {
@@ -778,6 +977,7 @@ pub fn run(args: &Args) -> Shard {
             "mixed" => run_mixed(focus, seed, index, clean),
             "same-key" => run_same_key(focus, seed, index),
             "update-sweep" => run_update_sweep(focus, seed, index),
+            "held-client" => run_held_client(focus, seed, index),
             "burst" => crate::conc2::run_burst(focus, seed, index),
             "shutdown" => crate::conc2::run_shutdown(focus, seed, index),
             "stall" => crate::conc2::run_stall(focus, seed, index),
